@@ -38,9 +38,13 @@ Proof. vm_compute. auto. Qed.
 Lemma can_step_complete : forall cf s a s', step cf s a = Some s' -> can_step cf s = true.
 Proof.
   intros cf s [g l] s' H. pose proof H as H'. step_cases H Pg.
+  all: try match type of H with match ?k0 with Res => _ | Cls => _ end = _ => destruct k0 end;
+       try discriminate H;
+       try match type of H with (if negb (?c =? ?k0) then _ else _) = _ =>
+         destruct (Nat.eqb_spec c k0); cbn [negb] in H; [subst c|discriminate H] end.
   all: unfold can_step; apply existsb_exists; exists g; split; [apply in_seq; lia|];
        unfold enabled_g, offers; rewrite Pg; cbn [existsb].
-  all: try (rewrite H'; reflexivity).
+  all: try (rewrite H'; rewrite ?orb_true_r; reflexivity).
   all: unfold step; cbn [who lab]; rewrite (proj2 (Nat.ltb_lt _ _) H0); cbn [negb]; rewrite Pg; unfold in_hterm;
        destruct (hctx (th s g)) as [[? hm]|]; [destruct hm|]; cbn;
        try destruct (caller (th s g)); try destruct (handlers_locked cf); cbn; rewrite ?orb_true_r; reflexivity.
